@@ -14,17 +14,35 @@
 (* codes here ("x=int1", "skip(if=$v)", "v|Int!|int1|"); the driver        *)
 (* expands them into abstract values.  TLC's breadth-first search visits   *)
 (* every document within the budgets exactly once per section order.       *)
+(* The pools and budgets are one of the records of CONSTANT Configs.       *)
 (***************************************************************************)
 EXTENDS Naturals, Sequences, FiniteSets, TLC, Json
 
-CONSTANTS MaxNodes, MaxSecs, MaxAlias, MaxArgs, MaxDirs, MaxVars,
-          OpHeads,      \* "query:", "query:Q", "mutation:M", "subscription:S" ...
-          FragNames,    \* names fragment definitions may take
-          Fields, Conds, Spreads, ArgPool, DirPool, VarPool,
-          OpenOnly,     \* fields that always get a selection set / never get one (the rest: both ways)
-          LeafOnly
-VARIABLES secs, open, nalias, nargs, ndirs, nvars
-vars == <<secs, open, nalias, nargs, ndirs, nvars>>
+CONSTANT Configs     \* set of pool configurations, each a record
+  \* [label, MaxNodes, MaxSecs, MaxAlias, MaxArgs, MaxDirs, MaxVars,
+  \*  OpHeads ("query:", "query:Q", "mutation:M", "subscription:S" ...), FragNames (names fragment definitions may take),
+  \*  Fields, Conds, Spreads, ArgPool, DirPool, VarPool,
+  \*  OpenOnly, LeafOnly (fields that always / never get a selection set; the rest: both ways)]
+  \* One TLC run enumerates all of them: Init picks the configuration, it never changes afterwards.
+VARIABLES p, secs, open, nalias, nargs, ndirs, nvars
+vars == <<p, secs, open, nalias, nargs, ndirs, nvars>>
+
+MaxNodes == p.MaxNodes
+MaxSecs == p.MaxSecs
+MaxAlias == p.MaxAlias
+MaxArgs == p.MaxArgs
+MaxDirs == p.MaxDirs
+MaxVars == p.MaxVars
+OpHeads == p.OpHeads
+FragNames == p.FragNames
+Fields == p.Fields
+Conds == p.Conds
+Spreads == p.Spreads
+ArgPool == p.ArgPool
+DirPool == p.DirPool
+VarPool == p.VarPool
+OpenOnly == p.OpenOnly
+LeafOnly == p.LeafOnly
 
 Cur == secs[Len(secs)]
 NodesOf(s) == Len(s.nodes)
@@ -46,11 +64,12 @@ AliasChoice == IF nalias < MaxAlias THEN {"", "x"} ELSE {""}
 Header(h, vs, ds) == [kind |-> "op", head |-> h, on |-> "", vars |-> vs, dirs |-> ds, nodes |-> <<>>]
 FragHeader(n, c, ds) == [kind |-> "frag", head |-> n, on |-> c, vars |-> <<>>, dirs |-> ds, nodes |-> <<>>]
 
-Init == /\ \E h \in OpHeads, vs \in Seqs(VarPool, Min(2, MaxVars)), ds \in Seqs(DirPool, Min(1, MaxDirs)) :
+Init == /\ p \in Configs
+        /\ \E h \in OpHeads, vs \in Seqs(VarPool, Min(2, MaxVars)), ds \in Seqs(DirPool, Min(1, MaxDirs)) :
              /\ secs = <<Header(h, vs, ds)>> /\ nvars = Len(vs) /\ ndirs = Len(ds)
         /\ open = <<0>> /\ nalias = 0 /\ nargs = 0
 
-Append2(n) == secs' = [secs EXCEPT ![Len(secs)].nodes = Append(@, n)]
+Append2(n) == secs' = [secs EXCEPT ![Len(secs)].nodes = Append(@, n)] /\ UNCHANGED p
 
 AddField ==
   /\ NNodes < MaxNodes
@@ -78,7 +97,7 @@ AddSpread ==
 
 Close == /\ Len(open) > 1 /\ Top > 0
          /\ open' = SubSeq(open, 1, Len(open) - 1)
-         /\ UNCHANGED <<secs, nalias, nargs, ndirs, nvars>>
+         /\ UNCHANGED <<p, secs, nalias, nargs, ndirs, nvars>>
 
 SectionDone == Len(open) = 1 /\ open[1] > 0
 NewSection ==
@@ -87,7 +106,7 @@ NewSection ==
           /\ secs' = Append(secs, Header(h, vs, ds)) /\ nvars' = nvars + Len(vs) /\ ndirs' = ndirs + Len(ds)
      \/ \E n \in FragNames, c \in Conds, ds \in Seqs(DirPool, Min(1, MaxDirs - ndirs)) :
           /\ secs' = Append(secs, FragHeader(n, c, ds)) /\ ndirs' = ndirs + Len(ds) /\ UNCHANGED nvars
-  /\ open' = <<0>> /\ UNCHANGED <<nalias, nargs>>
+  /\ open' = <<0>> /\ UNCHANGED <<p, nalias, nargs>>
 
 Next == AddField \/ AddInline \/ AddSpread \/ Close \/ NewSection
 Spec == Init /\ [][Next]_vars
@@ -100,5 +119,5 @@ DepthOK == \A s \in 1..Len(secs) : \A i \in 1..Len(secs[s].nodes) :
 \* a node opened a selection set iff the next node is one level deeper; a field/inline that opened one is never left empty once the section is done
 Complete == SectionDone
 NoEmptySet == Complete => \A s \in 1..Len(secs) : NodesOf(secs[s]) >= 1
-Emit == Complete => PrintT(<<"REPLAY", ToJson(secs)>>)
+Emit == Complete => PrintT(<<"REPLAY", p.label, ToJson(secs)>>)
 =============================================================================
